@@ -9,6 +9,7 @@ CONSTANTS
   Deltas = {1, 2, 3, 4}
   SameModes = {FALSE}
   MaxTouched = 3
+  GenMaxMixed = 2
   GenWithRepeat = FALSE
   AsCoded = FALSE
 INVARIANTS TypeOK Completeness SoundNonCancelling SingleFaultDetected C32_AggExact
